@@ -21,6 +21,7 @@ import json
 import os
 import shutil
 import tempfile
+import threading
 import xml.etree.ElementTree as ET
 
 from hypothesis import strategies as st
@@ -48,7 +49,7 @@ def report_case(draw):
         ops.append({
             # literal template text reaches the recorded URI as it is (requests leaves these characters alone)
             "path": f"/r{i}" + draw(st.sampled_from(["", "", "", "'s", ":a", "!x", "*", "(a)", "''", ",y;z", "=$"])),
-            "status": draw(st.sampled_from([200, 200, 500, 404, 204])),
+            "status": draw(st.sampled_from([200, 200, 500, 500, 404, 204])),
             "body": draw(st.sampled_from(BODIES)),
             "content_type": draw(st.sampled_from(["application/json", "text/plain", "application/octet-stream", "text/plain; charset=latin-1", "text/plain; charset=no-such-charset", "text/plain; charset=x'y", 'application/json; charset="utf-8"'])),
             "header": draw(st.sampled_from([None, "plain", "caf\xe9 latin", "quote'd \"x\"", "a: b, c", "c1 \x80 and \x9f end", "back\\slash \xff"])),
@@ -56,6 +57,9 @@ def report_case(draw):
             "drop": draw(st.integers(0, 9)) == 0,
             # the name of the query parameter travels into the cassette's coverage metadata
             "param": draw(st.sampled_from(["q", "q", "user's id", "k: v", "# x", 'q"uote', "back\\slash", "it's: #1"])),
+            # from the n-th request of the run on the operation answers differently: failures seen before meet new ones in one exchange
+            "later": draw(st.sampled_from([None, None, "flip-type", "flip-type", "to-500", "to-200-html", "to-503-xml"])),
+            "later_from": draw(st.sampled_from([2, 3, 4, 6, 9])),
         })
     return {
         "ops": ops,
@@ -67,6 +71,7 @@ def report_case(draw):
         "seed": draw(st.integers(0, 1000)),
         "workers": draw(st.sampled_from([1, 2])),
         # the cassette records the command line
+        "checks": draw(st.sampled_from(["not_a_server_error", "not_a_server_error,content_type_conformance", "not_a_server_error,content_type_conformance"])),
         "cli_header": draw(st.sampled_from([None, None, "X-Cli: plain", "X-Cli: it's", "X-Cli: \"q\" #x", "X-Cli: a: 'b'"])),
     }
 
@@ -80,7 +85,7 @@ def build_doc(inp) -> dict:
         elif op.get("param", "q") != "q":
             # a bounded integer gets boundary cases, so the coverage metadata names this parameter
             q["schema"] = {"type": "integer", "minimum": 1, "maximum": 9}
-        paths[op["path"] + "/{seg}"] = {"get": {"parameters": [q, {"name": "seg", "in": "path", "required": True, "schema": {"type": "string", "enum": ["plain", "it's", "a b"]}}], "responses": {"200": {"description": "ok"}}}}
+        paths[op["path"] + "/{seg}"] = {"get": {"parameters": [q, {"name": "seg", "in": "path", "required": True, "schema": {"type": "string", "enum": ["plain", "it's", "a b"]}}], "responses": {"200": {"description": "ok", "content": {"application/json": {"schema": {}}}}, "default": {"description": "anything", "content": {"application/json": {"schema": {}}}}}}}
     if inp["links"]:
         paths["/c"] = {"post": {"operationId": "c", "requestBody": {"required": True, "content": {"application/json": {"schema": {"type": "object", "properties": {"n": {"type": "integer"}}, "required": ["n"]}}}},
                                 "responses": {"201": {"description": "ok", "links": {"l": {"operationId": "g", "parameters": {"id": "$response.body#/id"}}}}}}}
@@ -92,6 +97,9 @@ def make_script(inp):
     from vfw.harness import loopback
 
     by_prefix = {op["path"]: op for op in inp["ops"]}
+    seen: dict = {}  # requests per operation (the server's `ordinal` counts per path)
+    answers: dict = {}  # case id -> (status, content type) actually sent
+    lock = threading.Lock()
 
     def script(req, ordinal):
         if req.path == "/c":
@@ -105,12 +113,17 @@ def make_script(inp):
             return loopback.json_reply(200, {})
         if op["drop"] and ordinal % 3 == 2:
             return loopback.Reply(close=True)
-        headers = {"Content-Type": op["content_type"]}
+        with lock:
+            nth = seen[op["path"]] = seen.get(op["path"], -1) + 1
+            status, content_type = _answer(op, nth)
+            answers[req.header("X-Schemathesis-TestCaseId")] = (status, content_type)
+        headers = {"Content-Type": content_type}
         if op["header"] is not None:
             headers["X-Note"] = op["header"]
-        body = op["body"].encode("latin-1") if op["status"] != 204 else b""
-        return loopback.Reply(status=op["status"], headers=headers, body=body)
+        body = op["body"].encode("latin-1") if status != 204 else b""
+        return loopback.Reply(status=status, headers=headers, body=body)
 
+    script.answers = answers
     return script
 
 
@@ -121,13 +134,18 @@ def check_reports(ctx: Ctx, inp) -> None:
 
     workdir = tempfile.mkdtemp(prefix="vfw-c16-", dir="/var/tmp")
     answered: list = []
-    server = loopback.shared(make_script(inp))
+    script = make_script(inp)
+    server = loopback.shared(script)
+
+    def sent_to(req):
+        return script.answers[req.header("X-Schemathesis-TestCaseId")]
+
     try:
         schema_path = os.path.join(workdir, "schema.json")
         with open(schema_path, "w") as fd:
             json.dump(build_doc(inp), fd)
         report_dir = os.path.join(workdir, "reports")
-        args = ["run", schema_path, "--url", server.url, "--report", "junit,vcr,har", "--report-dir", report_dir, "--phases", ",".join(inp["phases"]), "--max-examples", "4", "--seed", str(inp["seed"]), "--workers", str(inp["workers"]), "--no-color", "--checks", "not_a_server_error", "--continue-on-failure", "--output-sanitize", "true" if inp["sanitize"] else "false"]
+        args = ["run", schema_path, "--url", server.url, "--report", "junit,vcr,har", "--report-dir", report_dir, "--phases", ",".join(inp["phases"]), "--max-examples", "4", "--seed", str(inp["seed"]), "--workers", str(inp["workers"]), "--no-color", "--checks", inp.get("checks", "not_a_server_error"), "--continue-on-failure", "--output-sanitize", "true" if inp["sanitize"] else "false"]
         if inp["preserve_bytes"]:
             args.append("--report-preserve-bytes")
         if inp.get("cli_header"):
@@ -173,11 +191,26 @@ def check_reports(ctx: Ctx, inp) -> None:
                 has_failure = tc is not None and tc.find("failure") is not None
                 if op["drop"] and tc is not None and tc.find("error") is not None:
                     continue  # dropped connections make the scenario an ERROR, which the handler reports instead of the failures
-                if got_answers and op["status"] >= 500 and not has_failure:
-                    ctx.disagree("junit:failing-operation-has-no-failure-element", f"{label} answered {op['status']} {len(got_answers)}x; testcase present: {tc is not None}", input=inp)
-                if op["status"] < 500 and has_failure:
-                    ctx.disagree("junit:failure-element-for-an-operation-that-passed-every-check", f"{label} always answered {op['status']}", input=inp)
+                sent = [sent_to(r) for r in got_answers]
+                own = [sent_to(r) for r in got_answers if r.method == "GET"]  # (requests with another method are the coverage phase's unexpected-method cases)
+                two_checks = "content_type_conformance" in inp.get("checks", "")
+                expected_titles = set()
+                if any(st_ >= 500 for st_, _ in sent):
+                    expected_titles.add("Server error")
+                if two_checks and any(not _documented(ct) for _, ct in own):
+                    expected_titles.add("Undocumented Content-Type")
+                text = " ".join((f.get("message") or "") + " " + (f.text or "") for f in tc.findall("failure")) if tc is not None else ""
+                reported = {t for t in ("Server error", "Undocumented Content-Type") if f"- {t}" in text}
+                if expected_titles and not has_failure:
+                    ctx.disagree("junit:failing-operation-has-no-failure-element", f"{label} was answered {sorted(set(sent))}; testcase present: {tc is not None}", input=inp)
+                elif expected_titles - reported:
+                    ctx.disagree("junit:failure-missing-from-the-report", f"{label} was answered {sorted(set(sent))} (checks {inp.get('checks')}): JUnit mentions {sorted(reported)}, not {sorted(expected_titles - reported)}", input=inp)
+                maybe = {"Undocumented Content-Type"} if two_checks and any(not _documented(ct) for _, ct in sent) else set()
+                if reported - expected_titles - maybe:
+                    ctx.disagree("junit:failure-element-for-an-operation-that-passed-every-check", f"{label} was answered {sorted(set(sent))}: JUnit mentions {sorted(reported - expected_titles)}", input=inp)
                 ctx.classes["junit-operation-judged"] += 1
+                if len(expected_titles) > 1:
+                    ctx.classes["junit-operation-with-two-kinds-of-failure"] += 1
         # ---- VCR ----
         expected_ids = [r.header("X-Schemathesis-TestCaseId") for r in answered]
         by_id = {r.header("X-Schemathesis-TestCaseId"): r for r in answered}
@@ -237,12 +270,17 @@ def check_reports(ctx: Ctx, inp) -> None:
                 if not inp["sanitize"] and i["request"]["uri"] != server.url + req.target:
                     ctx.disagree("vcr:uri-differs", f"{i['request']['uri']!r} vs {server.url + req.target!r}", input=inp)
                 if op is not None:
-                    if str(i["response"]["status"]["code"]) != str(op["status"]):
-                        ctx.disagree("vcr:status-differs", f"{i['response']['status']['code']} vs {op['status']}", input=inp)
+                    sent_status, sent_ct = sent_to(req)
+                    if str(i["response"]["status"]["code"]) != str(sent_status):
+                        ctx.disagree("vcr:status-differs", f"{i['response']['status']['code']} vs {sent_status}", input=inp)
+                    # the second check's verdict belongs to the exchange as well
+                    got_ct = [c.get("status") for c in (i.get("checks") or []) if c.get("name") == "content_type_conformance"]
+                    if req.method == "GET" and got_ct and got_ct != ["SUCCESS" if _documented(sent_ct) else "FAILURE"]:
+                        ctx.disagree("vcr:check-results-differ-from-the-response", f"interaction {i['id']} answered with {sent_ct!r}: content_type_conformance recorded as {got_ct}", input=inp)
                     noted = [v for k, vs in (i["response"].get("headers") or {}).items() if k.lower() == "x-note" for v in vs]
                     if op["header"] is not None and noted != [op["header"]]:
                         ctx.disagree("vcr:response-header-differs", f"recorded X-Note {noted!r}, sent {op['header']!r}", input=inp)
-                    sent = op["body"].encode("latin-1") if op["status"] != 204 else b""
+                    sent = op["body"].encode("latin-1") if sent_status != 204 else b""
                     body = i["response"].get("body")
                     if inp["preserve_bytes"]:
                         got = base64.b64decode(body["base64_string"]) if body and "base64_string" in body else b""
@@ -289,13 +327,14 @@ def check_reports(ctx: Ctx, inp) -> None:
                     continue
                 if e["request"]["method"] != req.method:
                     ctx.disagree("har:method-differs", f"{e['request']['method']} vs {req.method}", input=inp)
-                if e["response"]["status"] != op["status"]:
-                    ctx.disagree("har:status-differs", f"{e['response']['status']} vs {op['status']}", input=inp)
+                sent_status, _ct = sent_to(req)
+                if e["response"]["status"] != sent_status:
+                    ctx.disagree("har:status-differs", f"{e['response']['status']} vs {sent_status}", input=inp)
                 if op["header"] is not None:
                     got_h = [h["value"] for h in e["response"].get("headers", []) if h["name"].lower() == "x-note"]
                     if got_h != [op["header"]]:
                         ctx.disagree("har:response-header-differs", f"recorded X-Note {got_h!r}, sent {op['header']!r}", input=inp)
-                sent = op["body"].encode("latin-1") if op["status"] != 204 else b""
+                sent = op["body"].encode("latin-1") if sent_status != 204 else b""
                 content = e["response"].get("content") or {}
                 text = content.get("text") or ""
                 if inp["preserve_bytes"]:
@@ -319,6 +358,18 @@ def _compare_ids(ctx, name, ids, expected_ids, inp):
         extra = len(set(ids) - set(expected_ids))
         sig = f"{name}:exchange-recorded-twice" if dup else f"{name}:exchange-missing-from-the-report" if missing else f"{name}:exchange-not-in-the-traffic"
         ctx.disagree(sig, f"{name} has {len(ids)} answered interactions, the API answered {len(expected_ids)} requests (missing {missing}, extra {extra}, duplicates {dup})", input=inp)
+
+
+def _answer(op, nth):
+    if op.get("later") and nth >= op["later_from"]:
+        if op["later"] == "flip-type":  # the same status (a failure already seen stays), another verdict on the media type
+            return op["status"], "text/plain" if _documented(op["content_type"]) else "application/json"
+        return {"to-500": (500, op["content_type"]), "to-200-html": (200, "text/html"), "to-503-xml": (503, "application/xml")}[op["later"]]
+    return op["status"], op["content_type"]
+
+
+def _documented(content_type: str) -> bool:
+    return content_type.split(";")[0].strip().lower() == "application/json"
 
 
 def _dropped(inp, req) -> bool:
